@@ -33,7 +33,8 @@ def sh(cmd, cwd=None, env=None, timeout=1800):
 
 class Worktree:
     def __init__(self, tag):
-        self.path = f'/tmp/seedwt/{tag}-{os.getpid()}'
+        import threading
+        self.path = f'/tmp/seedwt/{tag}-{os.getpid()}-{threading.get_ident() % 100000}'
 
     def __enter__(self):
         os.makedirs('/tmp/seedwt', exist_ok=True)
@@ -131,11 +132,27 @@ def main():
     if a[0] == 'run':
         cmd_run(a[1], a[2:], tier)
     if a[0] == 'matrix':
+        # tools/seed.py matrix [prefix ...] [--jobs N] : every stored seed against the check of its own property
+        jobs = 1
+        if '--jobs' in a:
+            i = a.index('--jobs')
+            jobs = int(a[i + 1])
+            del a[i:i + 2]
+        sids = [sid for sid in sorted(os.listdir(os.path.join(VERIF, 'seeded')))
+                if os.path.isdir(os.path.join(VERIF, 'seeded', sid)) and (len(a) < 2 or sid.startswith(tuple(a[1:])))]
         out = {}
-        for sid in sorted(os.listdir(os.path.join(VERIF, 'seeded'))):
-            if os.path.isdir(os.path.join(VERIF, 'seeded', sid)) and (len(a) < 2 or sid.startswith(tuple(a[1:]))):
+        if jobs > 1:
+            from concurrent.futures import ThreadPoolExecutor
+            with ThreadPoolExecutor(jobs) as ex:
+                for sid, r in zip(sids, ex.map(lambda x: cmd_run(x, [], tier), sids)):
+                    out[sid] = r
+        else:
+            for sid in sids:
                 out[sid] = cmd_run(sid, [], tier)
-        print(json.dumps(out, indent=1))
+        with open(os.path.join(VERIF, 'seeded', 'MATRIX.json'), 'w') as f:
+            json.dump({'tier': tier, 'results': out}, f, indent=1)
+        det = sum(1 for r in out.values() for v in r.values() if isinstance(v, dict) and v.get('exit') == 1)
+        print(f'{det} of {len(out)} seeded changes detected by the check of their own property ({tier} tier)')
 
 
 if __name__ == '__main__':
